@@ -86,35 +86,21 @@ def panicFreeAt : List (String × String) := [
   ("revindex_scaled", "unimplemented!")
 ]
 
-/-- Exports that are unguarded today **and abort the process on in-contract arguments** (each one
-    reproduced by corpus/C20/aborts.ops and recorded in findings/C20.json).  They are exempted from
-    `T-exports` by name, so that the theorem can be stated and checked on the current tree; the list
-    becomes empty when proposed/C20.diff (route them through `ffi_fn!`) is applied to /repo. -/
-def knownUnguardedAborting : List String := [
-  "hll_add_hash",                          -- default HLL: registers[0] out of bounds
-  "hll_cardinality",                       -- default HLL: estimators::mle unwraps None
-  "hll_similarity",                        -- default HLL; precision 4 against 14: TryFromIntError unwrap
-  "hll_containment",
-  "hll_intersection_size",
-  "hll_matches",
-  "kmerminhash_add_hash",                  -- abundance u64::MAX + 1 (builds with overflow checks)
-  "kmerminhash_add_hash_with_abundance",
-  "kmerminhash_add_word",
-  "nodegraph_with_tables",                 -- starting_size 0: `tablesize - 1`
-  "nodegraph_count",                       -- table of length 0 (loaded from a buffer): `hash % 0`
-  "nodegraph_get",
-  "nodegraph_count_kmer",                  -- non-ACGT byte: unimplemented!(); empty k-mer: index out of bounds
-  "nodegraph_get_kmer",
-  "nodegraph_expected_collisions",         -- no tables: min() of an empty iterator unwrapped
-  "nodegraph_matches",                     -- table of length 0
-  "nodegraph_update_mh"                    -- table of length 0; `.unwrap()`
-]
+/-- Exports that are unguarded **and abort the process on in-contract arguments**.  Empty since
+    /repo 4bca13d routed the 17 exports found by the child-process harness (hll_add_hash,
+    hll_cardinality, hll_similarity, hll_containment, hll_intersection_size, hll_matches,
+    kmerminhash_add_hash, kmerminhash_add_hash_with_abundance, kmerminhash_add_word,
+    nodegraph_with_tables, nodegraph_count, nodegraph_get, nodegraph_count_kmer, nodegraph_get_kmer,
+    nodegraph_expected_collisions, nodegraph_matches, nodegraph_update_mh) through `ffi_fn!`;
+    corpus/C20/aborts.ops keeps their argument classes as regression inputs.  `T-exports` no longer
+    exempts anything. -/
+def knownUnguardedAborting : List String := []
 
 /-- the check `T-exports` performs on one row -/
 def calleeAllowed (exportName callee : String) : Bool :=
   panicFree.contains callee || panicFreeAt.contains (exportName, callee)
 
 def rowOk (name : String) (guarded : Bool) (callees : List String) : Bool :=
-  guarded || callees.all (calleeAllowed name) || knownUnguardedAborting.contains name
+  guarded || callees.all (calleeAllowed name)
 
 end Sourmash.Spec.PanicFree
